@@ -168,6 +168,23 @@ func c08Definitions(s *drv.Server, rel string) string {
 		}
 		parts = append(parts, frSet(locsToFR(s, locs)))
 	}
+	// bare-identifier completion behind the identifiers of the variants (labels of the alphabet's names only)
+	for _, p := range [][2]int{{0, 7}, {1, 7}} {
+		items, err := s.Completion(rel, p[0], p[1], "")
+		if err != nil {
+			parts = append(parts, "error:"+err.Error())
+			continue
+		}
+		var ls []string
+		for _, it := range items {
+			switch it.Label {
+			case "g", "x", "u", "m":
+				ls = append(ls, it.Label)
+			}
+		}
+		sort.Strings(ls)
+		parts = append(parts, "completion:"+strings.Join(uniq(ls), ","))
+	}
 	return strings.Join(parts, " | ")
 }
 
@@ -302,7 +319,7 @@ func c08Check(s *drv.Server, st c08State) (string, string) {
 		}
 		if st.buf[f] >= 0 {
 			if g := c08Definitions(s, rel); g != fv.defs[rel] {
-				return "definition-differs-from-fresh-server", fmt.Sprintf("%s: fresh server [%s], history server [%s]", rel, fv.defs[rel], g)
+				return "definition-or-completion-differs-from-fresh-server", fmt.Sprintf("%s: fresh server [%s], history server [%s]", rel, fv.defs[rel], g)
 			}
 		}
 	}
@@ -444,7 +461,7 @@ func init() {
 		ID:        "C08",
 		Technique: "explicit-state exploration of event histories: every sequence of client/file events up to the depth bound that a conformant client can produce (reference client model), replayed on a fresh real server; invariant evaluated after every event against a freshly started server on the same disk (differential oracle)",
 		Rule: "alphabet: open/change/save (with and without a watched-files event)/close/create/delete/external-change on files a.lua, b.lua (also sub/b.lua required as sub.b, pkg/init.lua required as pkg) with content variants {clean, syntax error, unused local, defines g, reads g, requires b}; three initial workspaces; " +
-			"invariant: files without unsaved edits show exactly the fresh server's diagnostics (and the same definition answers at three positions), a file with an unsaved buffer shows only that buffer's syntax errors if it has any, else the saved non-syntax diagnostics. " +
+			"invariant: files without unsaved edits show exactly the fresh server's diagnostics (and the same definition answers at three positions and the same completion candidates at two), a file with an unsaved buffer shows only that buffer's syntax errors if it has any, else the saved non-syntax diagnostics. " +
 			"states = histories whose every state satisfied the invariant; transitions = events executed; non-trivial = sequences producible by the client model (the others are skipped without a server)",
 		Assumptions: []string{
 			"client conventions of DESIGN.md Appendix D: save = write file + didSave(text) + watched 'changed'; external edits/creates/deletes only for files that are not open; didChange replaces the whole document by one incremental edit",
